@@ -748,8 +748,15 @@ func main() {
 				for a := int64(1); a <= 6; a++ {
 					clash := false
 					for _, at := range in.Atoms {
-						if at.Col == "age" && at.Op == "eq" && at.I == a {
+						// (also `age <> a`, whose negation renders `age = a`, and lists holding a: one
+						// text for two atoms would be ambiguous for the lexer)
+						if at.Col == "age" && at.I == a && !at.IsStr {
 							clash = true
+						}
+						for _, v := range at.IL {
+							if at.Col == "age" && v == a {
+								clash = true
+							}
 						}
 					}
 					if !clash {
